@@ -14,6 +14,7 @@ import (
 	"errors"
 	"fmt"
 	"math/rand"
+	"regexp"
 	"sort"
 	"strings"
 
@@ -351,8 +352,10 @@ func firstWord(d []string) string {
 	return f[0]
 }
 
+var reBlockNo = regexp.MustCompile(`block \d+: `)
+
 func errSig(err error) string {
-	s := err.Error()
+	s := reBlockNo.ReplaceAllString(err.Error(), "")
 	if i := strings.LastIndex(s, ": "); i >= 0 && i < len(s)-2 {
 		s = s[:i]
 	}
